@@ -45,6 +45,30 @@ End MemoTable.
 
 Definition always {V : Type} (_ : V) : bool := true.
 
+(** The table consulted and filled only for inputs that pass a gate (pre_eval.rs:159-163,
+    since 49da69f: [cacheable = node.is_pure(..)] guards both the lookup and the inserts) *)
+Section MemoTableGated.
+  Context {X K V : Type}.
+  Variable keqb : K -> K -> bool.
+  Variable gate : X -> bool.
+  Variable key : X -> K.
+  Variable f : X -> V.
+
+  Fixpoint run_memo_gated_from (t : list (K * V)) (history : list X) : list V :=
+    match history with
+    | [] => []
+    | x :: h =>
+        if gate x then
+          match lookup keqb (key x) t with
+          | Some v => v :: run_memo_gated_from t h
+          | None => f x :: run_memo_gated_from ((key x, f x) :: t) h
+          end
+        else f x :: run_memo_gated_from t h
+    end.
+
+  Definition run_memo_gated (history : list X) : list V := run_memo_gated_from [] history.
+End MemoTableGated.
+
 (** The same table with a side condition on the STORE step (invert/mod.rs:53-63 [cacheable],
     un.rs:62-66, under.rs, since 868269f): a result whose computation read something the key
     does not feed (there: the length of the spans table, un.rs:598-601) is returned but not
@@ -90,17 +114,30 @@ Inductive node : Type :=
 | NOther (content : N) (span : option N).
 
 (** What [impl Hash for Node] feeds (tree.rs:1220-1238): the discriminant and every field
-    except those named [span]; a [Function] feeds ONLY its body hash (assembly.rs:89-93);
+    except those named [span]; a [Function] feeds its body hash and (since 8592559) its
+    signature field, which a declared signature can make differ from the body's (assembly.rs:89-96);
     a SigNode feeds node and sig (derive).  The fed content as a tree with the forgotten
     ingredients zeroed (the body is not fed: only its hash). *)
 Fixpoint erase (x : node) : node :=
   match x with
   | NPrim p _ => NPrim p 0
   | NMod p args _ => NMod p (map (fun a => (erase (fst a), snd a)) args) 0
-  | NCall _ _ _ h _ _ _ => NCall 0 0 0 h 0 (NRun []) 0
+  | NCall _ fs _ h _ _ _ => NCall 0 fs 0 h 0 (NRun []) 0
   | NGlobal i s => NGlobal i s
   | NPush v => NPush v
   | NRun ns => NRun (map erase ns)
+  | NOther c _ => NOther c None
+  end.
+
+(** before 8592559 a [Function] fed ONLY its body hash *)
+Fixpoint erase_pre (x : node) : node :=
+  match x with
+  | NPrim p _ => NPrim p 0
+  | NMod p args _ => NMod p (map (fun a => (erase_pre (fst a), snd a)) args) 0
+  | NCall _ _ _ h _ _ _ => NCall 0 0 0 h 0 (NRun []) 0
+  | NGlobal i s => NGlobal i s
+  | NPush v => NPush v
+  | NRun ns => NRun (map erase_pre ns)
   | NOther c _ => NOther c None
   end.
 
@@ -149,7 +186,7 @@ Fixpoint input_spans (x : node) : node :=
     (content and first span), then recursively every span index and, for every call, the
     function INDEX and the function ID (name); with [Some(asm)] (un.rs, under.rs) the same
     for the bodies of called functions ([deep]), with [None] (zip.rs) not ([shallow]).
-    Not fed: the handle's sig field and origin.
+    The handle's sig field is fed through [Hash] (8592559).  Not fed: the origin.
     Why the index is fed although the body is walked: a [Call] that survives in a cached
     inverse or closure is EXECUTED THROUGH ITS INDEX ([asm.functions[f.index]],
     assembly.rs:611-620, run.rs:604), so two inputs with the same callee body at different
@@ -160,7 +197,7 @@ Fixpoint deep (x : node) : node :=
   match x with
   | NPrim p s => NPrim p s
   | NMod p args s => NMod p (map (fun a => (deep (fst a), snd a)) args) s
-  | NCall id _ i h _ b s => NCall id 0 i h 0 (deep b) s
+  | NCall id fs i h _ b s => NCall id fs i h 0 (deep b) s
   | NGlobal i s => NGlobal i s
   | NPush v => NPush v
   | NRun ns => NRun (map deep ns)
@@ -170,7 +207,7 @@ Fixpoint shallow (x : node) : node :=
   match x with
   | NPrim p s => NPrim p s
   | NMod p args s => NMod p (map (fun a => (shallow (fst a), snd a)) args) s
-  | NCall id _ i h _ _ s => NCall id 0 i h 0 (NRun []) s
+  | NCall id fs i h _ _ s => NCall id fs i h 0 (NRun []) s
   | NGlobal i s => NGlobal i s
   | NPush v => NPush v
   | NRun ns => NRun (map shallow ns)
@@ -204,7 +241,7 @@ Fixpoint deep_no_index (x : node) : node :=
   match x with
   | NPrim p s => NPrim p s
   | NMod p args s => NMod p (map (fun a => (deep_no_index (fst a), snd a)) args) s
-  | NCall id _ _ h _ b s => NCall id 0 0 h 0 (deep_no_index b) s
+  | NCall id fs _ h _ b s => NCall id fs 0 h 0 (deep_no_index b) s
   | NGlobal i s => NGlobal i s
   | NPush v => NPush v
   | NRun ns => NRun (map deep_no_index ns)
@@ -273,7 +310,7 @@ Fixpoint content (x : node) : node :=
   match x with
   | NPrim p _ => NPrim p 0
   | NMod p args _ => NMod p (map (fun a => (content (fst a), snd a)) args) 0
-  | NCall _ _ _ h _ b _ => NCall 0 0 0 h 0 (content b) 0
+  | NCall _ fs _ h _ b _ => NCall 0 fs 0 h 0 (content b) 0
   | NGlobal i s => NGlobal i s
   | NPush v => NPush v
   | NRun ns => NRun (map content ns)
@@ -391,6 +428,9 @@ Definition inv_f_l {V : Type} (u : list node * (N * bool) -> bool) (g : list nod
   g (inv_deps_named (fst x)) (if u (inv_deps_named (fst x)) then Some (snd x) else None).
 Definition inv_store_l (u : list node * (N * bool) -> bool) (x : inv_input_l) : bool :=
   negb (u (inv_deps_named (fst x))).
+(** the anti-inverse cache: the second component is (0, for_un) — [anti_inverse_impl] tries fewer
+    patterns when the inverse is for un (un.rs:139); before 261768c the key did not feed it *)
+Definition anti_key_pre (x : inv_input) : list node := map deep (fst x).
 (** the key between 25aa9f6 and 7da4086 (no names) *)
 Definition inv_key_pre_names (x : inv_input) : list node * (N * bool) := (map deep_pre (fst x), snd x).
 (** a key that hashes the callee's body instead of its index *)
@@ -406,6 +446,7 @@ Definition inv_key_fix1 (x : inv_input) : list node * (N * bool) := (map input_s
 (** 4. signature (check.rs:49-67): key = content hash of the slice *)
 Definition sig_key (x : list node) : list node := map erase x.
 Definition sig_cache_deps (x : list node) : list node := map sig_deps x.
+Definition sig_key_pre (x : list node) : list node := map erase_pre x.     (* before 8592559 *)
 
 (** 5. purity (tree.rs:856-927): key = (content hash, min purity); the computation follows
     calls into bodies, reads [asm.bindings[origin].meta.external] (tree.rs:882) and
@@ -467,7 +508,8 @@ Definition zip_key_pre (x : node) : node := erase x.
 (** one tie case: two exported real node slices, and what the implementation said about
     the equality of their keys: content hash of the slice (check.rs), content hash of the
     node (tree.rs / pre_eval.rs), inverse key (un.rs / under.rs), fast-function key (zip.rs) *)
-Record tcase := TC { t_x : list node; t_y : list node; t_sig_eq : bool; t_node_eq : bool; t_inv_eq : bool; t_zip_eq : bool }.
+Record tcase := TC { t_x : list node; t_y : list node; t_sig_eq : bool; t_node_eq : bool; t_inv_eq : bool; t_zip_eq : bool;
+                     t_fx : bool; t_fy : bool; t_anti_eq : bool }.   (* for_un of x, of y; equal anti keys *)
 
 Definition content_eqb (x y : list node) : bool := list_eqb node_eqb (map erase x) (map erase y).
 Definition inv_eqb (x y : list node) : bool := list_eqb node_eqb (map deep x) (map deep y).
@@ -477,7 +519,8 @@ Definition tcase_ok (c : tcase) : bool :=
   Bool.eqb (content_eqb (t_x c) (t_y c)) (t_sig_eq c) &&
   Bool.eqb (content_eqb (t_x c) (t_y c)) (t_node_eq c) &&
   Bool.eqb (inv_eqb (t_x c) (t_y c)) (t_inv_eq c) &&
-  Bool.eqb (zip_eqb (t_x c) (t_y c)) (t_zip_eq c).
+  Bool.eqb (zip_eqb (t_x c) (t_y c)) (t_zip_eq c) &&
+  Bool.eqb (inv_eqb (t_x c) (t_y c) && Bool.eqb (t_fx c) (t_fy c)) (t_anti_eq c).
 
 (** the model's verdicts on a pair, for the dependency tie: same inverse modulo handles
     ([no_names] also forgetting the index: [with_spans]) / same [sig_deps] / identical,
